@@ -157,6 +157,7 @@ func (g *Gen) addEdges() {
 func genC01(g *Gen) {
 	g.setMode(0)
 	g.addGrid(0.4)
+	g.pairGrid(0.2, func(x, y d128.Decimal) { g.someModes(g.addSubOp(), x, y, 2) })
 	for !g.w.full() {
 		switch g.r.Intn(11) {
 		case 11:
@@ -276,6 +277,7 @@ func genC02(g *Gen) {
 	g.setMode(0)
 	g.mulGrid(0.4)
 	g.quoGrid(0.12)
+	g.pairGrid(0.2, func(x, y d128.Decimal) { g.someModes([]string{"Mul", "Quo"}[g.r.Intn(2)], x, y, 2) })
 	for !g.w.full() {
 		switch g.r.Intn(18) {
 		case 16:
